@@ -362,12 +362,20 @@ func TestEvidencePool(t *testing.T) {
 		steps := rapid.IntRange(3, 14).Draw(t, "steps")
 		nontrivial := false
 		var history []*types.DuplicateVoteEvidence
+		var forced *types.DuplicateVoteEvidence // a just-committed item to be replayed in the next step
 		for i := 0; i < steps; i++ {
-			switch act := rapid.IntRange(0, 9).Draw(t, "act"); {
+			act := rapid.IntRange(0, 9).Draw(t, "act")
+			if forced != nil {
+				act = 5
+			}
+			switch {
 			case act <= 5 || len(history) == 0: // offer one piece of evidence through AddEvidence (the reactor path)
 				e, mut, desc := w.genEvidence(t)
 				if act == 5 && len(history) > 0 { // or re-offer an earlier one, possibly with an unsigned field changed
 					old := history[rapid.IntRange(0, len(history)-1).Draw(t, "old")]
+					if forced != nil {
+						old, forced = forced, nil
+					}
 					cp := *old
 					a, b := *old.VoteA, *old.VoteB
 					cp.VoteA, cp.VoteB = &a, &b
@@ -465,13 +473,16 @@ func TestEvidencePool(t *testing.T) {
 				ev.Guard(t, text, func() { w.nd.EvPool.Update(st, list) })
 				w.stateH, w.stateT = st.LastBlockHeight, st.LastBlockTime
 				// sometimes the chain grows by a few more (empty) blocks, so that earlier heights leave the block window
-				for extra := rapid.SampledFrom([]int{0, 0, 0, 1, 4}).Draw(t, "emptyblocks"); extra > 0; extra-- {
+				for extra := rapid.SampledFrom([]int{0, 0, 1, 4, 4}).Draw(t, "emptyblocks"); extra > 0; extra-- {
 					st = w.nd.EvPool.State()
 					st.LastBlockHeight++
 					st.LastBlockTime = st.LastBlockTime.Add(time.Second)
 					log = append(log, fmt.Sprintf("empty block -> state height %d", st.LastBlockHeight))
 					ev.Guard(t, text, func() { w.nd.EvPool.Update(st, nil) })
 					w.stateH, w.stateT = st.LastBlockHeight, st.LastBlockTime
+				}
+				if len(list) > 0 && rapid.Bool().Draw(t, "replay-next") {
+					forced = list[rapid.IntRange(0, len(list)-1).Draw(t, "replay-which")].(*types.DuplicateVoteEvidence)
 				}
 				// committed items are gone from pending; expired ones too; everything else is still offered
 				after := w.pending()
@@ -538,6 +549,9 @@ func TestEvidencePool(t *testing.T) {
 						allValid = false
 						if w.valid(e) == "already-committed" {
 							replayed = true
+							if int64(w.stateH)-int64(e.VoteA.Height) > maxAgeBlocks {
+								ev.Class("replay-of-committed-evidence-outside-the-block-window-but-not-expired")
+							}
 						} else {
 							otherInvalid = true
 						}
